@@ -50,8 +50,9 @@ theorem Items.snoc {α β : Type} {R : α → β → Prop} : ∀ {l : List α} {
 def ItemOK (E : Env U π) (s : St U π) (nt : UNT U) (d : Sym × List (UNT U)) (it : π × Prog) : Prop :=
   AList.lookup (nt, d.1, d.2) s.maxRule = some it.2 ∧ HasPrio E it.2 nt it.1 ∧
   ∃ w kids, (d.2, w) ∈ altsOf E nt d.1 ∧ it.2 = Tree.node d.1 kids ∧ DerList E kids d.2 ∧
-    ∀ (i : Nat) (ai : Prog) (si : UNT U), kids[i]? = some ai → d.2[i]? = some si →
-      AList.lookup none (s.succOf si) = some ai
+    (∀ (i : Nat) (ai : Prog) (si : UNT U), kids[i]? = some ai → d.2[i]? = some si →
+      AList.lookup none (s.succOf si) = some ai) ∧
+    AList.lookup (nt, it.2) s.keys = some d.2
 
 /-- phase 1 of `__init_non_terminal__` after the alternatives `done` -/
 structure Phase1 (E : Env U π) (s : St U π) (nt : UNT U) (done : List (Sym × List (UNT U))) (items : List (π × Prog))
@@ -102,7 +103,7 @@ theorem initPush_spec {E : Env U π} {rank : UNT U → Nat} {Good : π → Prop}
   | _ :: _, [], _, _, h, _, _ => h.elim
   | (P, v) :: rest, (pr, prog) :: items, s, s', hit, hb, hp => by
     have hk := H.ghyp.kway
-    obtain ⟨⟨hmr, hpr, w, kids, hmw, hprog, hdl, hpop⟩, hrest⟩ := hit
+    obtain ⟨⟨hmr, hpr, w, kids, hmw, hprog, hdl, hpop, _⟩, hrest⟩ := hit
     simp only at hmr hpr hprog
     simp only [initPush] at hp
     rw [hmr] at hp
@@ -146,11 +147,14 @@ theorem initPush_spec {E : Env U π} {rank : UNT U → Nat} {Good : π → Prop}
             ((only_addSeen s nt prog).trans (only_cacheStep hcs nt)).trans (only_pushBoth E hk _ nt pr1 _)
           have hrest' : Items (ItemOK E (pushBoth E s1 nt pr1 prog) nt) rest items := by
             refine Items.mono ?_ hrest
-            intro d it _ ⟨a, b, w', kids', c1, c2, c4, c3⟩
-            refine ⟨?_, b, w', kids', c1, c2, c4, fun i ai si h1 h2 => st2 _ _ _ (c3 i ai si h1 h2)⟩
-            rw [hpb]
-            obtain ⟨c, rfl⟩ := hcs
-            exact a
+            intro d it _ ⟨a, b, w', kids', c1, c2, c4, c3, c5⟩
+            refine ⟨?_, b, w', kids', c1, c2, c4, fun i ai si h1 h2 => st2 _ _ _ (c3 i ai si h1 h2), ?_⟩
+            · rw [hpb]
+              obtain ⟨c, rfl⟩ := hcs
+              exact a
+            · rw [hpb]
+              obtain ⟨c, rfl⟩ := hcs
+              exact c5
           obtain ⟨r1, r2, r3, r4, r5, r6, r7, r8, r9, r10⟩ := initPush_spec H nt rest items _ s' hrest' hb2 hp
           have hkeys1 : s1.keys = s.keys := by obtain ⟨c, rfl⟩ := hcs; rfl
           have hkeys2 : (pushBoth E s1 nt pr1 prog).keys = s.keys := by rw [hpb]; exact hkeys1
